@@ -18,6 +18,7 @@ from ahbicht.content_evaluation.evaluationdatatypes import EvaluatableData, Eval
 from ahbicht.content_evaluation.evaluator_factory import create_content_evaluation_result_based_evaluators
 from ahbicht.content_evaluation.token_logic_provider import SingletonTokenLogicProvider, TokenLogicProvider
 from ahbicht.expressions import InvalidExpressionError
+from ahbicht.expressions.ahb_expression_parser import parse_ahb_expression_to_single_requirement_indicator_expressions
 from ahbicht.expressions.ahb_expression_evaluation import evaluate_ahb_expression_tree
 from ahbicht.expressions.condition_expression_parser import parse_condition_expression_to_tree
 from ahbicht.expressions.expression_resolver import parse_expression_including_unresolved_subexpressions
@@ -183,9 +184,15 @@ async def check_ahb(ctx, case):
             ctx.evaluation()
             ctx.count("is_valid_expression_calls")
 
-            use_tree = ctx.case_rng(case).random() < 0.4
+            r = ctx.case_rng(case).random()
+            use_tree = r < 0.5
+            unresolved = r < 0.2 and "P" not in s and "UB" not in s.upper().replace("MUSS", "")
 
             async def go2():
+                if unresolved:
+                    # ... or the tree as the AHB expression parser returns it (condition expressions still as text): the shape
+                    # evaluate_ahb_expression_tree accepts as well
+                    return await is_valid_expression(parse_ahb_expression_to_single_requirement_indicator_expressions(s), _cer_var.set)
                 if use_tree:
                     # the documented alternative input: an already parsed (and resolved) tree
                     return await is_valid_expression(pout[1], _cer_var.set)
@@ -193,6 +200,8 @@ async def check_ahb(ctx, case):
 
             if use_tree:
                 ctx.count("is_valid_expression_calls_with_tree")
+            if unresolved:
+                ctx.count("is_valid_expression_calls_with_unresolved_ahb_tree")
             out = await sched.run_under(None, go2)
         finally:
             E.install()
